@@ -48,7 +48,7 @@ def _off(p, shape):
     return o
 
 
-def cum(ctx, shape, func, axis, dkind='f', nan=False, lkinds=None, transposed=False):
+def cum(ctx, shape, func, axis, dkind='f', nan=False, lkinds=None, transposed=False, positional=False):
     lkinds = lkinds or ['i', 'U', 'f', 'i'][:len(shape)]
     a, ref, dims, labels, attrs = _build(ctx, shape, lkinds, dkind, nan)
     if transposed:
@@ -57,7 +57,10 @@ def cum(ctx, shape, func, axis, dkind='f', nan=False, lkinds=None, transposed=Fa
         ref = ref.transpose(rev)
         dims, labels, shape = list(ref.dims), ref.labels, list(ref.shape)
     kw, pos = _axarg(dims, axis)
-    r = ctx.call(lambda: getattr(a, func)(**kw))
+    if positional and 'axis' in kw:
+        r = ctx.call(lambda: getattr(a, func)(kw['axis']))
+    else:
+        r = ctx.call(lambda: getattr(a, func)(**kw))
     if r[0] != 'ok':
         return ctx.done(False, r[1])
     exp = [None] * len(ref.cells)
@@ -75,7 +78,7 @@ def cum(ctx, shape, func, axis, dkind='f', nan=False, lkinds=None, transposed=Fa
     return ctx.done(same(ctx, r[1], Ref(dims, labels, exp), attrs=attrs), ctx.observe(r[1]))
 
 
-def diff(ctx, shape, axis, scheme='backward', keepaxis=False, n=1, lkinds=None, dkind='f'):
+def diff(ctx, shape, axis, scheme='backward', keepaxis=False, n=1, lkinds=None, dkind='f', positional=False):
     lkinds = lkinds or ['i', 'f', 'i', 'i'][:len(shape)]
     a, ref, dims, labels, attrs = _build(ctx, shape, lkinds, dkind)
     kw, pos = _axarg(dims, axis)
@@ -85,7 +88,11 @@ def diff(ctx, shape, axis, scheme='backward', keepaxis=False, n=1, lkinds=None, 
         kw['keepaxis'] = True
     if n != 1:
         kw['n'] = n
-    r = ctx.call(lambda: a.diff(**kw))
+    if positional and 'axis' in kw:
+        axv = kw.pop('axis')
+        r = ctx.call(lambda: a.diff(axv, **kw))        # the axis is the first positional argument
+    else:
+        r = ctx.call(lambda: a.diff(**kw))
     m = shape[pos]
     if scheme == 'centered' and keepaxis:
         return ctx.done(r == ('exc', 'ValueError'), r[1] if r[0] != 'ok' else ctx.observe(r[1]))
@@ -300,4 +307,8 @@ def templates():
     for func in ('argmin', 'argmax'):
         for shape, axis in (([3], None), ([3], 0), ([2, 3], 'name1'), ([2, 2], None)):
             add('%s-under-position-%s-%s' % (func, 'x'.join(map(str, shape)), axis), 'argext', cost=1, shape=shape, func=func, axis=axis, under={'indexing.by': 'position'})
+    # the axis given positionally (first argument), on arrays where every dimension has another length
+    for shape, axis in (([2, 3, 4], 1), ([2, 3, 4], 0), ([2, 3, 4], 'name1'), ([3, 2], 0), ([2, 3, 4], 2)):
+        add('diff-positional-%s-%s' % ('x'.join(map(str, shape)), axis), 'diff', cost=1, shape=shape, axis=axis, positional=True)
+        add('cumsum-positional-%s-%s' % ('x'.join(map(str, shape)), axis), 'cum', cost=1, shape=shape, func='cumsum', axis=axis, positional=True)
     return ts
